@@ -1,4 +1,5 @@
 import Moclo.Model.Registry
+import Moclo.Proofs.Directory
 import Moclo.Tables.Registries
 import Mathlib.Data.List.Nodup
 /-!
@@ -8,8 +9,13 @@ import Mathlib.Data.List.Nodup
   union of the members' keys, first member added wins, absent key ↦ no item;
 * the five embedded registries, exhaustively: kernel-checked over the table regenerated from the live
   archives on every run (`Generated/Registries.lean`).
-**Partial**: `tarfile` / `fs` / GenBank parsing are I/O outside the model; the directory-backed registry is
-decided by the oracle on generated in-memory directories.
+* a directory of GenBank files (`Dir.keys`, `Dir.lookup` = `FilesystemRegistry.__iter__` / `__getitem__` over a
+  listing): a key can be looked up exactly when iteration yields it, the file that is opened is spelt
+  `key.ext`, what lies in a sub-directory or is not a regular file is never a key, and none of it depends on
+  whether the filesystem matches wildcards case-insensitively.
+**Partial**: `tarfile` / `fs` / GenBank parsing are I/O outside the model (the listing a filesystem returns for
+literal extensions is modelled by its contract, and compared with the real one on in-memory and on-disk
+directories by the correspondence).
 -/
 namespace Moclo.C20
 open Moclo
@@ -210,6 +216,75 @@ theorem resistance_known (feats : List (List Nat)) (r : Nat)
   obtain ⟨_, _, tag, _, hm⟩ := resistance_from_table _ feats r h
   have := List.all_eq_true.mp Tables.antibiotics_known (tag, r) hm
   exact memN_sound _ _ this
+
+/-! ## a directory of GenBank files -/
+section directory
+open Dir
+
+/-- **a key can be looked up exactly when iteration yields it** — every yielded key is found, and looking up
+anything else is a `KeyError` — whatever the extensions (none of them empty), the directory listing and the
+case sensitivity of the filesystem's wildcard matching -/
+theorem dir_lookup_iff_iterated (ci : Bool) (exts : List Name) (hne : [] ∉ exts) (dir : List Entry) (k : Name) :
+    (lookup exts dir k).isSome ↔ k ∈ keys ci exts dir := by
+  rw [mem_keys_iff hne]
+  constructor
+  · intro h
+    obtain ⟨n, hn⟩ := Option.isSome_iff_exists.mp h
+    obtain ⟨_, hk, hf⟩ := lookup_spec hn
+    obtain ⟨f, hfd, hff, rfl⟩ := isFile_iff.mp hf
+    exact ⟨f, hfd, hff, hk⟩
+  · rintro ⟨f, hfd, hff, hk⟩
+    obtain ⟨_, e, he, hn⟩ := key_spec hne hk
+    unfold lookup
+    rw [List.find?_isSome]
+    refine ⟨k ++ dotC :: e, List.mem_map.mpr ⟨e, he, rfl⟩, ?_⟩
+    simp only [Bool.and_eq_true, beq_iff_eq]
+    exact ⟨by rw [← hn]; exact hk, isFile_iff.mpr ⟨f, hfd, hff, hn⟩⟩
+
+/-- the file opened for a key is a regular file of the directory itself spelt `key.ext` with a listed
+extension, and the id given to its record (`splitext` of that name, which is what `key` computes) is the key -/
+theorem dir_item_carries_key (exts : List Name) (dir : List Entry) (k n : Name) (h : lookup exts dir k = some n) :
+    (∃ e ∈ exts, n = k ++ dotC :: e) ∧ key exts n = some k ∧ (∃ f ∈ dir, f.isFile = true ∧ f.name = n) := by
+  obtain ⟨h1, h2, h3⟩ := lookup_spec h
+  exact ⟨h1, h2, isFile_iff.mp h3⟩
+
+/-- the keys do not depend on how the filesystem matches wildcards: a name that differs from `key.ext` in the
+case of its extension (`x.GB`), or has nothing before its only dot (`.gb`), is not a plasmid file -/
+theorem dir_keys_case_independent (exts : List Name) (hne : [] ∉ exts) (dir : List Entry) (k : Name) :
+    k ∈ keys true exts dir ↔ k ∈ keys false exts dir := by
+  rw [mem_keys_iff hne, mem_keys_iff hne]
+
+/-- sub-directories and what they hold are ignored: an entry that is not a regular file yields no key, and no
+name or key containing `/` is ever looked up successfully -/
+theorem dir_subdirectories_ignored (ci : Bool) (exts : List Name) (hne : [] ∉ exts) (dir : List Entry) (k : Name)
+    (hk : k ∈ keys ci exts dir) :
+    slashC ∉ k ∧ ∃ f ∈ dir, f.isFile = true ∧ ∃ e ∈ exts, f.name = k ++ dotC :: e := by
+  obtain ⟨f, hfd, hff, hkey⟩ := (mem_keys_iff hne).mp hk
+  obtain ⟨hs, e, he, hn⟩ := key_spec hne hkey
+  refine ⟨?_, f, hfd, hff, e, he, hn⟩
+  intro hin
+  exact hs (by rw [hn]; exact List.mem_append_left _ hin)
+
+/-- `len()` is the number of keys iteration yields (the definition of `__len__`), and with distinct file stems
+no key comes twice -/
+theorem dir_keys_nodup (ci : Bool) (exts : List Name) (dir : List Entry)
+    (hd : (dir.filterMap (fun f => key exts f.name)).Nodup) : (keys ci exts dir).Nodup := by
+  unfold keys listing
+  exact hd.sublist (List.Sublist.filterMap _ List.filter_sublist)
+
+/-! non-vacuity: `a.gb`, `x.GB`, `.gb`, a directory `old.gb`, `p.q.gbk` under `("gb", "gbk")` on a case-insensitive
+listing: keys `a` and `p.q`; `x`, the empty key and `old` are absent -/
+def gb : Name := [103, 98]
+def gbk : Name := [103, 98, 107]
+def demoDir : List Entry :=
+  [⟨[97, 46, 103, 98], true⟩, ⟨[120, 46, 71, 66], true⟩, ⟨[46, 103, 98], true⟩, ⟨[111, 108, 100, 46, 103, 98], false⟩,
+   ⟨[112, 46, 113, 46, 103, 98, 107], true⟩]
+example : keys true [gb, gbk] demoDir = [[97], [112, 46, 113]] ∧ keys false [gb, gbk] demoDir = [[97], [112, 46, 113]] ∧
+    lookup [gb, gbk] demoDir [97] = some [97, 46, 103, 98] ∧ lookup [gb, gbk] demoDir [120] = none ∧
+    lookup [gb, gbk] demoDir [] = none ∧ lookup [gb, gbk] demoDir [111, 108, 100] = none := by decide
+example : ([] : Name) ∉ [gb, gbk] := by decide
+
+end directory
 
 /-! non-vacuity -/
 example : findResistance [(1, 10), (2, 20)] [[5], [7, 2, 2], [1]] = .ok 20 ∧
